@@ -190,6 +190,18 @@ func (p *Prog) IsTestFile(pos token.Pos) bool {
 // FnName renders a function as pkgshort.Name, pkgshort.(*T).m, with $n for
 // closures: fsutil.(*sender).run$3.
 func (p *Prog) FnName(fn *ssa.Function) string {
+	n := p.fnNameRaw(fn)
+	if curAliases != nil && len(curAliases.funcFwd) > 0 {
+		if fn != nil && fn.Parent() == nil {
+			if c, ok := curAliases.funcFwd[n]; ok {
+				return c
+			}
+		}
+	}
+	return n
+}
+
+func (p *Prog) fnNameRaw(fn *ssa.Function) string {
 	if fn == nil {
 		return "<nil>"
 	}
